@@ -59,13 +59,16 @@ ANCHORS = [
     "txtorcon.torcontrolprotocol:TorControlProtocol.set_conf",
 ]
 FLOORS = {
-    "quick": {"evaluations": 800, "setconf_lines_decoded": 1500, "quiet_checks": 4000, "saves_rejected": 200,
-              "reads_compared": 1500, "second_save_checks": 800, "midack_edits": 100, "inplace_ops": 1500,
+    "quick": {"evaluations": 600, "setconf_lines_decoded": 1000, "quiet_checks": 2500, "saves_rejected": 150,
+              "reads_compared": 1500, "second_save_checks": 600, "midack_edits": 100, "inplace_ops": 600,
               "reach:txtorcon.torconfig:TorConfig.save": 2000,
-              "reach:txtorcon.torconfig:TorConfig.mark_unsaved": 1500,
-              "reach:txtorcon.torcontrolprotocol:TorControlProtocol.set_conf": 1500},
-    "thorough": {"evaluations": 12000, "setconf_lines_decoded": 25000, "quiet_checks": 60000, "saves_rejected": 3000,
-                 "reads_compared": 25000, "second_save_checks": 12000, "midack_edits": 1500, "inplace_ops": 25000},
+              "reach:txtorcon.torconfig:TorConfig.mark_unsaved": 700,
+              "reach:txtorcon.torconfig:TorConfig._save_completed": 800,
+              "reach:txtorcon.torcontrolprotocol:TorControlProtocol.set_conf": 1000},
+    "thorough": {"evaluations": 9000, "setconf_lines_decoded": 15000, "quiet_checks": 40000, "saves_rejected": 2500,
+                 "reads_compared": 25000, "second_save_checks": 10000, "midack_edits": 1500, "inplace_ops": 9000,
+                 "reach:txtorcon.torconfig:TorConfig.save": 30000,
+                 "reach:txtorcon.torcontrolprotocol:TorControlProtocol.set_conf": 15000},
 }
 
 REJECTIONS = {
